@@ -255,7 +255,7 @@ theorem bitmapGrow_total (ok : CfgOK c) (lk : Like64 c) (g : Rng D) (rec0 : Ins 
         rebuild c (insertStep c g rec0) (denseWithMax c mx) (.heap sz cap bits a) e
       else do
         let r ← drawM c g cap bits
-        let new ← withCapBits c g (cap + 1 + (r % cap)) bits
+        let new ← withCapBits c g (cap + 1 + c.growExtra cap + (r % cap)) bits
         rebuild c (insertStep c g rec0) new (.heap sz cap bits a) e) d = .ok ((r', b), d') := by
   have hold : ∀ x ∈ elems c (.heap sz cap bits a),
       x ∈ elems c (.heap sz cap bits a) ++ [e] ∧ x < 2 ^ c.W :=
@@ -278,7 +278,7 @@ theorem bitmapGrow_total (ok : CfgOK c) (lk : Like64 c) (g : Rng D) (rec0 : Ins 
       simpa [nz] using this
     have hcapeq := wf.cap_eq
     obtain ⟨r, d1, h1, gd⟩ := withCapBits_good ok g (V := elems c (.heap sz cap bits a) ++ [e])
-      (cap := cap + 1 + modW c (g.draw d cap bits).1 % cap) (bits := bits) (by omega)
+      (cap := cap + 1 + c.growExtra cap + modW c (g.draw d cap bits).1 % cap) (bits := bits) (by omega)
       (Or.inr ⟨wf.bits_pos, wf.bits_lt⟩)
       (by
         intro y hy
